@@ -43,6 +43,27 @@ def burn(k=1):
             raise Fuel('fuel exhausted')
 
 
+LEAF_HASH = (1 << 40) + 7      # never equal to a node id (int dict keys)
+
+
+def _fuel_on_node_hash():
+    import ddsmt.nodes as N
+
+    def __hash__(self):
+        burn()
+        return self.hash
+
+    N.Node.__hash__ = __hash__
+
+
+def reset_ids(start=1000):
+    """Node ids come from a process-wide counter; restart it on every path so
+    that the paths of one exploration are reproducible (dict probing order
+    of id keys would otherwise differ between runs -> NotDeterministic)."""
+    import ddsmt.nodes as N
+    N.Node._Node__ID_COUNTER.value = start
+
+
 def install_hash(mode='S'):
     """Replace the ``hash`` seen by ddsmt.nodes.
 
@@ -67,7 +88,40 @@ def install_hash(mode='S'):
         if mode == 'T' and t is str:
             with NoTracing():
                 return hash(data)
-        return 7
+        return LEAF_HASH
+
+    N.hash = vhash
+    _fuel_on_node_hash()
+
+
+HASH_PARAMS = {'a': 1, 'm': 31}
+
+
+def install_hash_family():
+    """mode H (C12): hash chosen from a two-parameter family.
+
+    leaf hash = a * code + 7 (code = ord of the single character, 0 for the
+    empty leaf), tuple hash = sum m**i * hash_i + len + 1.  a = 0 makes all
+    leaves collide, m = 0 all equally long tuples; a = 1, m = 31 is
+    collision-free on small trees.  Equal data always hash equal."""
+    from crosshair.tracers import NoTracing
+    import ddsmt.nodes as N
+
+    def vhash(data):
+        burn()
+        with NoTracing():
+            t = type(data)
+        a, m = HASH_PARAMS['a'], HASH_PARAMS['m']
+        if t is tuple:
+            h = len(data) + 1
+            k = 1
+            for c in data:
+                h = h + k * c.hash
+                k = k * m
+            return h
+        if len(data) == 0:
+            return 7
+        return a * ord(data[0]) + 7 + 1000 * (len(data) - 1)
 
     N.hash = vhash
 
